@@ -287,6 +287,7 @@ func genPipelineLedgerCase(rng *rand.Rand, allowStale bool) lcase {
 				total = 1
 			}
 		}
+		longTxn := !synthetic && total >= 2 && rng.Intn(6) == 0
 		tr := ltruth{T: txn, Commit: commit, Total: total, Synthetic: synthetic}
 		for d := 0; d < nd; d++ {
 			keyseq++
@@ -320,6 +321,19 @@ func genPipelineLedgerCase(rng *rand.Rand, allowStale bool) lcase {
 					deferred = append(deferred, ch) // open batch flushed by a later tick
 				} else {
 					dispatch(ch)
+					if final && longTxn && msgs > 0 {
+						// a long-running transaction: its first batch is written, then many ledger ticks pass
+						// before the rest of it (and its COMMIT report) arrives
+						longTxn = false
+						for j := len(inflight) - 1; j >= 0; j-- {
+							if inflight[j].k == key {
+								complete(j)
+							}
+						}
+						for e := 13 + rng.Intn(8); e > 0; e-- {
+							ops = append(ops, lop{Op: "E"})
+						}
+					}
 					idle()
 				}
 			}
@@ -399,7 +413,7 @@ func init() {
 				cases = append(cases, genSoupLedgerCase(rng))
 			}
 		}
-		rep.Rule = "corpus first, then seeded: 45% pipeline-like histories without stale completions (one transaction in seven after the first is closed by a SYNTHETIC commit report at its predecessor's position, as error recovery produces), 30% pipeline-like with arbitrary (possibly stale) completion order, 25% random op soup over 3 transaction ids x 3 keys incl. duplicate Seen, zero commits and keys shared across ids. Non-trivial: at least one emission or error observed and >= 4 ops; distinct by op sequence."
+		rep.Rule = "corpus first, then seeded: 45% pipeline-like histories without stale completions (one transaction in seven after the first is closed by a SYNTHETIC commit report at its predecessor's position, as error recovery produces; one multi-row transaction in six is LONG: its first batch is written, then 13-20 ledger ticks pass before the rest and the COMMIT report arrive), 30% pipeline-like with arbitrary (possibly stale) completion order, 25% random op soup over 3 transaction ids x 3 keys incl. duplicate Seen, zero commits and keys shared across ids. Non-trivial: at least one emission or error observed and >= 4 ops; distinct by op sequence."
 		var sb strings.Builder
 		sb.WriteString("From Bifrost.model Require Import Base Ledger.\nOpen Scope string_scope.\nDefinition cases : list lcase := [\n")
 		seen := map[string]bool{}
